@@ -68,6 +68,12 @@ func (f *foreignBuilder) str(s string) {
 func (f *foreignBuilder) typ(name string) {
 	for i, t := range f.types {
 		if t == name && f.ch.Intn(3, "f.typeref") != 0 {
+			if f.ch.Intn(2, "f.typeref.form") == 1 {
+				// the form this library's decoder accepts: one octet that is not a string tag, THEN the index
+				// (the grammar's form is the index alone; both are sent so that either reading is exercised)
+				f.buf.WriteByte(0x90)
+				f.Features["type reference (octet + index form)"]++
+			}
 			f.int(int32(i))
 			f.Features["type reference"]++
 			return
@@ -85,6 +91,10 @@ func (f *foreignBuilder) str2(s string) { // type names: never chunked
 func (f *foreignBuilder) intList() {
 	n := f.ch.Range(0, 9, "f.list.n")
 	name := "[int32"
+	if f.ch.Intn(6, "f.list.unknowntype") == 1 {
+		name = "[nosuchtype" // a type name the type map does not know: the name is read, the decode then fails
+		f.Features["typed list of an unknown type"]++
+	}
 	switch f.ch.Intn(5, "f.list.form") {
 	case 0: // compact fixed typed
 		if n > 7 {
